@@ -104,6 +104,15 @@ def generate(rng, tier):
         fn = [off + G.dyadic(rng, 512, 6) * scale for _ in range(nf)]
         if rng.random() < 0.3:
             fe[0], fn[0] = oe[0], on[0]
+        v_ = rng.random()
+        if v_ < 0.1:
+            # the forces share ONE coordinate with the observations (placed below / beside them): same eastings, other northings - or the reverse
+            fe, fn = list(oe), [y + rng.choice([0.25, -1.5]) * scale for y in on]
+        elif v_ < 0.2:
+            fe, fn = [x + rng.choice([0.5, -2.0]) * scale for x in oe], list(on)
+        elif v_ < 0.27:
+            fe, fn = list(oe), list(on)      # forces exactly at the observations (the symmetric case)
+        nf = len(fe)
         shape2d = [nobs] if (nobs % 2 or rng.random() < 0.6) else [2, nobs // 2]
         if u < 0.2:
             cs.append(mk_sjac(oe, on, fe, fn, rng.choice([0.0, 0.0, 1e-3, 1.0, scale]), "spline-jac"))
